@@ -27,11 +27,15 @@ func parseFileTypeBox(b *box) (ftyp FileTypeBox, err error) {
 	if err != nil {
 		return ftyp, err
 	}
+	if len(buf) < 8 {
+		// no room for the major brand and the minor version
+		return ftyp, errors.Wrap(ErrBufLength, "parseFileTypeBox")
+	}
 	ftyp.MajorBrand = brandFromBuf(buf[:4])
 	copy(ftyp.MinorVersion[:4], buf[4:8])
 
 	// Read maximum 7 Compatible brands
-	for i, compatibleBrand := 8, 0; i < b.remain && compatibleBrand < maxBrandCount; compatibleBrand++ {
+	for i, compatibleBrand := 8, 0; i+4 <= len(buf) && compatibleBrand < maxBrandCount; compatibleBrand++ {
 		ftyp.Compatible[compatibleBrand] = brandFromBuf(buf[i : i+4])
 		i += 4
 	}
